@@ -113,7 +113,7 @@ def calc_heat_pump_cascade(
         hot_streams = StreamCollection()
         cold_streams = res.amb_stream
 
-    if len(res.amb_stream) > 0:
+    if res.amb_stream is not None and len(res.amb_stream) > 0:
         pt_air = get_process_heat_cascade(
             hot_streams=hot_streams,
             cold_streams=cold_streams,
